@@ -58,6 +58,31 @@ def gen(rng):
     return ref, L, t, centre, w
 
 
+def gen_hard(rng):
+    """exactly affine point sets whose design matrix is badly scaled: a small group of neighbouring spots far away from the centre
+    argument, or weights spread over many decades (any centre and any positive weights are allowed)"""
+    L, t = rand_map(rng)
+    if rng.integers(0, 2):
+        n = int(rng.integers(3, 8))
+        while True:
+            ref = np.array([float(rng.choice([800.0, 2500.0, -4000.0])), float(rng.choice([800.0, 2500.0, 6000.0]))]) + rng.uniform(-3, 3, size=(n, 2))
+            if np.linalg.cond(np.hstack([ref - ref.mean(axis=0), np.ones((n, 1))])) < 50:
+                break
+        centre = [None, np.zeros(2), rng.uniform(-30, 60, 2)][int(rng.integers(0, 3))]
+        w = [None, rng.uniform(0.1, 10, n)][int(rng.integers(0, 2))]
+    else:
+        n = int(rng.integers(3, 7))
+        while True:
+            ref = rng.uniform(-50, 80, size=(n, 2))
+            if np.linalg.cond(np.hstack([ref - ref.mean(axis=0), np.ones((n, 1))])) < 50:
+                break
+        centre = [None, ref.mean(axis=0)][int(rng.integers(0, 2))]
+        w = 10.0 ** rng.uniform(-7.5, 0, n)
+        w[int(rng.integers(0, n))] = 1.0
+        w[int(rng.integers(0, n))] = 1e-7
+    return ref, L, t, centre, w
+
+
 def stmt_failure(ref, L, t, centre, w, noise=None):
     peaks = ref @ L + t
     sc = max(1.0, np.abs(peaks).max(), np.abs(ref).max())
@@ -216,10 +241,18 @@ def run(ctx):
         if fail:
             ctx.violation('input', fail, mk_replay(ref, L, t, centre, w, fail, noise))
             break
+    for k in range(ctx.n(80, 800)):
+        ref, L, t, centre, w = gen_hard(rng)
+        fail = stmt_failure(ref, L, t, centre, w, None)
+        ctx.count(1)
+        ctx.hist('badly scaled design', 'far cluster' if np.abs(ref).max() > 500 else 'weights over 7 decades')
+        if fail:
+            ctx.violation('input', fail, mk_replay(ref, L, t, centre, w, fail, None))
+            break
     return ctx.finish(
         LEVEL,
         explanation='Theorems over Q: exact affine data are recovered exactly by the column-wise weighted fit (any centre, any weights), the fit is the '
                     'least-squares optimum for the squared weights, the centre returned by find_center is the fixed point. Tie: get_transformation / '
                     'do_transformation / find_center in exact rationals vs the lstsq/solve implementation on the same floats.',
         rule='3..40 points (K: <= 16), rotations / shears / anisotropic scalings / random maps with condition <= 100 and no eigenvalue 1, centre None/0/random, '
-             'weights None/uniform/random, with and without residuals.')
+             'weights None/uniform/random, with and without residuals; exactly affine sets with a badly scaled design (small cluster 800..6000 px from the centre argument, weights over 7 decades).')
